@@ -2591,6 +2591,67 @@ func (x *frameC05) oneForgery(addr string, junk, noReset bool) {
 	}
 }
 
+// the application's side of the receive path: a Read with a buffer of any size returns or times
+// out, whatever the (authentic) datagrams put into the receive queue
+func (x *frameC05) appRead(addr string, buf []byte) {
+	s := x.sessionAt(addr)
+	if s == nil {
+		return
+	}
+	s.SetReadDeadline(time.Now().Add(time.Millisecond))
+	x.res.Monitors["session-read-no-panic"]++
+	x.res.Dist[fmt.Sprintf("c05-read-buf-%d", len(buf))]++
+	var stack string
+	pn := func() (p string) {
+		defer func() {
+			if r := recover(); r != nil {
+				p = fmt.Sprint(r)
+				stack = string(debug.Stack())
+			}
+		}()
+		s.Read(buf)
+		return ""
+	}()
+	if pn != "" {
+		if len(stack) > 2500 {
+			stack = stack[:2500]
+		}
+		x.res.violate("session-read-panic:"+x.path, fmt.Sprintf("Read with a %d-byte buffer panicked on what authentic datagrams had queued (%s; cipher %s, FEC %d/%d): %s", len(buf), x.path, x.ciph.name, x.cfg.D, x.cfg.P, pn),
+			map[string]any{"from": addr, "buffer": len(buf), "stack": stack})
+		// Read panicked with the session mutex held: everything after this would hang on it
+		if out := os.Getenv("FRAME_CHILD_OUT"); out != "" {
+			if b, err := json.Marshal(x.res); err == nil && os.WriteFile(out, b, 0o644) == nil {
+				os.Exit(0)
+			}
+		}
+	}
+}
+
+// a MESSAGE of several fragments (frg = k-1 .. 0), in order at the receiver's rcv_nxt: what a peer
+// driving the core in message mode sends (kcp-go's own Write never does), read with a small buffer
+func (x *frameC05) fragMessage(addr string) {
+	s := x.sessionAt(addr)
+	if s == nil {
+		return
+	}
+	rng := x.rng
+	s.mu.Lock()
+	nxt, conv := s.kcp.rcv_nxt, s.kcp.conv
+	s.mu.Unlock()
+	k := 2 + rng.intn(4)
+	total := 0
+	for i := 0; i < k; i++ {
+		data := rng.bytes(rng.pick(1, 300, 700, 1000, 1300))
+		total += len(data)
+		seg := frameSegBytes(conv, IKCP_CMD_PUSH, uint8(k-1-i), 128, 0, nxt+uint32(i), 0, uint32(len(data)), data)
+		x.forged(seg, addr, "frag-message")
+	}
+	if total > mtuLimit {
+		x.res.Dist["c05-frag-message-over-1500"]++
+	}
+	x.appRead(addr, make([]byte, rng.pick(1, 16, 700, 1499)))
+}
+
 func frameRunC05(cfg frameCfg) *frameResult {
 	res := &frameResult{Cfg: cfg, Dist: map[string]int{}, Monitors: map[string]int{}}
 	rng := newRng(cfg.Seed)
@@ -2704,11 +2765,11 @@ func frameRunC05(cfg frameCfg) *frameResult {
 			time.Sleep(time.Duration(rng.intn(3)) * time.Millisecond)
 			x.pump()
 		}
+		if rng.chance(12) {
+			x.fragMessage(addr)
+		}
 		if rng.chance(20) { // the application reads now and then: both a full and a draining receive queue occur
-			if s := x.sessionAt("B"); s != nil {
-				s.SetReadDeadline(time.Now().Add(time.Millisecond))
-				frameSafe(func() { s.Read(rbuf) })
-			}
+			x.appRead(addr, rbuf[:rng.pick(1, 16, 700, 1499, 1500, 1501, 2048, 2048, 2048)])
 		}
 	}
 	x.pump()
